@@ -125,8 +125,9 @@ def _run_main6(ctx):
         t = ev.run_fn('io_loop::channel_slots::ChannelSlots::iter', [('var', 'self', -1)])
         r.eq('iter:whole-table', S.show(t), 'std::collections::HashMap::iter(self.slots)', ctx.site('io_loop::channel_slots::ChannelSlots::iter'))
         # channel 0's sources are registered in thread_main, never deregistered
-        dereg = [(ctx.owner(x[0]), x[4]) for x in panics.registrations(ctx) if x[1] == 'deregister']
-        r.eq('deregister-sites', sorted(dereg), [('io_loop::Inner::allocate_channel', 'slot.rx'), ('io_loop::Inner::deregister_nonzero_channels', 'slot.rx')], None,
+        RXT = 'mio_extras::channel::Receiver<io_loop::IoLoopMessage>'   # the sources are told apart by their type, not by the name of the local that holds them
+        dereg = [(ctx.owner(x[0]), x[5]) for x in panics.registrations(ctx) if x[1] == 'deregister']
+        r.eq('deregister-sites', sorted(dereg), [('io_loop::Inner::allocate_channel', RXT), ('io_loop::Inner::deregister_nonzero_channels', RXT)], None,
              why="channel 0's request sources must stay polled while throttled (close, open_channel)")
 
     with ctx.rule('R18.4', 'a channel born while throttled is registered, then de-registered, so the later re-registration covers it', floor=2) as r:
@@ -155,8 +156,9 @@ def _round6(ctx):
     from rules import arms as A
     with ctx.rule('R18.7', 'while throttled no channel queue is polled: the only (re-)registrations of a channel receiver are its birth and the resume edge', floor=3) as r:
         from rules import panics
-        reg = sorted((ctx.owner(x[0]), x[1], x[4]) for x in panics.registrations(ctx) if x[1] in ('register', 'reregister') and x[4].endswith('slot.rx'))
-        r.eq('channel-receiver:registration-sites', reg, [('io_loop::Inner::allocate_channel', 'register', 'slot.rx'), ('io_loop::Inner::reregister_nonzero_channels', 'reregister', 'slot.rx')], None,
+        RXT = 'mio_extras::channel::Receiver<io_loop::IoLoopMessage>'
+        reg = sorted((ctx.owner(x[0]), x[1]) for x in panics.registrations(ctx) if x[1] in ('register', 'reregister') and x[5] == RXT and x[2] != 'mio::Token(0)')
+        r.eq('channel-receiver:registration-sites', reg, [('io_loop::Inner::allocate_channel', 'register'), ('io_loop::Inner::reregister_nonzero_channels', 'reregister')], None,
              why='re-arming a channel anywhere else lets its publisher keep filling outbuf during a stall')
         A.include(ctx, r, 'c01', 'R01.12')
 
@@ -165,5 +167,5 @@ def _round7(ctx):
     """Found by seeding round 7 (minimal one-line mutations)."""
     from rules import arms as A
     with ctx.rule('R18.8', "the marks and the bound are the caller's: ConnectionTuning's builder setters put each argument into the field of its name; a publisher facing a full queue blocks, it is not dropped (shared with C09)", floor=10) as r:
-        A.setters_and_ctors(ctx, r, 'connection::ConnectionTuning')
+        A.setters_and_ctors(ctx, r, 'connection::ConnectionTuning', names=('mem_channel_bound', 'buffered_writes_high_water', 'buffered_writes_low_water'))
         A.include(ctx, r, 'c09', 'R09.3', pick=('send',))
